@@ -281,7 +281,70 @@ func checkC07(c *Ctx) {
 			} else {
 				from = posOf(op.In)
 			}
-			path := findPath(from, pathQuery{target: waitsAgain, avoid: runsRound})
+			// a wait helper that reports "go on" to its caller (`for u.waitDue() { u.refresh() ... }`): a return of the
+			// constant true is followed into the callers, on the true side of the test of the call
+			isGoOn := func(x ssa.Instruction) bool {
+				r, ok := x.(*ssa.Return)
+				if !ok || len(r.Results) != 1 {
+					return false
+				}
+				cv, isC := returnedValues(r)[0].(*ssa.Const)
+				return isC && cv.Value != nil && cv.Value.String() == "true"
+			}
+			callWaits := func(x ssa.Instruction) bool {
+				cc := callOf(x)
+				if cc == nil {
+					return false
+				}
+				g := calleeFn(cc)
+				if g == nil || !isModFn(g) || g.Blocks == nil || runsRound(x) {
+					return false
+				}
+				blocks := false
+				eachInstr(g, func(_ *ssa.BasicBlock, _ int, y ssa.Instruction) {
+					if sel, ok := y.(*ssa.Select); ok && sel.Blocking {
+						blocks = true
+					}
+				})
+				return blocks
+			}
+			var follow func(from ipos, depth int) []*ssa.BasicBlock
+			follow = func(from ipos, depth int) []*ssa.BasicBlock {
+				f := from.b.Parent()
+				if bad := findPath(from, pathQuery{target: func(x ssa.Instruction) bool {
+					return (waitsAgain(x) && !isGoOn(x)) || callWaits(x)
+				}, avoid: runsRound}); bad != nil {
+					return bad
+				}
+				if depth >= 2 || findPath(from, pathQuery{target: isGoOn, avoid: runsRound}) == nil {
+					return nil
+				}
+				for _, ed := range p.callersOf(f) {
+					if p.isTestFn(ed.Caller.Func) {
+						continue
+					}
+					cv, ok := ed.Site.(ssa.Value)
+					if !ok {
+						return []*ssa.BasicBlock{ed.Site.Block()}
+					}
+					found := false
+					for _, r := range *cv.Referrers() {
+						iff, isIf := r.(*ssa.If)
+						if !isIf {
+							continue
+						}
+						found = true
+						if bad := follow(ipos{iff.Block().Succs[0], -1}, depth+1); bad != nil {
+							return bad
+						}
+					}
+					if !found {
+						return []*ssa.BasicBlock{ed.Site.Block()}
+					}
+				}
+				return nil
+			}
+			path := follow(from, 0)
 			c.Check(path == nil, "R3", site, op.In.Pos(), "every path from the receive runs a refresh round before the goroutine waits again or returns", "a refresh request is taken off the channel and dropped ("+p.pathString(path)+"): a redirection that arrived while a round was in flight loses its refresh when that round's answer predates the change - the table stays stale until another redirection happens to land outside a round, or until the periodic refresh")
 		}
 		// (a channel wrapped in a type whose operations are not resolved yields no operations at all: nothing to judge)
